@@ -1,18 +1,32 @@
 use crate::runner::{Arm, Ctx};
 
+#[cfg(feature = "full")]
 pub mod c01;
+#[cfg(feature = "full")]
 pub mod c05;
+#[cfg(feature = "full")]
 pub mod c06;
+#[cfg(feature = "full")]
 pub mod c07;
+#[cfg(feature = "full")]
 pub mod c30;
+#[cfg(feature = "full")]
 pub mod c31;
+#[cfg(feature = "full")]
 pub mod c32;
+#[cfg(feature = "full")]
 pub mod c33;
+#[cfg(feature = "full")]
 pub mod c34;
+#[cfg(feature = "full")]
 pub mod c35;
+#[cfg(feature = "full")]
 pub mod c36;
+#[cfg(feature = "full")]
 pub mod c37;
+#[cfg(feature = "full")]
 pub mod c39;
+pub mod c38;
 
 pub struct Property {
     pub id: &'static str,
@@ -21,28 +35,37 @@ pub struct Property {
     pub build: fn(&Ctx) -> Vec<Box<dyn Arm>>,
 }
 
-pub const ALL: &[Property] = &[
-    Property { id: "C01", level: "exploration", build: c01::build },
-    Property { id: "C05", level: "exploration", build: c05::build },
-    Property { id: "C06", level: "exploration", build: c06::build },
-    Property { id: "C07", level: "exploration", build: c07::build },
-    Property { id: "C30", level: "exploration", build: c30::build },
-    Property { id: "C31", level: "exploration", build: c31::build },
-    Property { id: "C32", level: "exploration", build: c32::build },
-    Property { id: "C33", level: "exploration", build: c33::build },
-    Property { id: "C34", level: "exploration", build: c34::build },
-    Property { id: "C35", level: "exploration", build: c35::build },
-    Property { id: "C36", level: "exploration", build: c36::build },
-    Property { id: "C37", level: "exploration", build: c37::build },
-    Property { id: "C39", level: "exploration", build: c39::build },
-];
-
-pub fn find(id: &str) -> Option<&'static Property> {
-    ALL.iter().find(|p| p.id == id)
+pub fn all() -> Vec<Property> {
+    let mut v: Vec<Property> = Vec::new();
+    #[cfg(feature = "full")]
+    {
+        v.push(Property { id: "C01", level: "exploration", build: c01::build });
+        v.push(Property { id: "C05", level: "exploration", build: c05::build });
+        v.push(Property { id: "C06", level: "exploration", build: c06::build });
+        v.push(Property { id: "C07", level: "exploration", build: c07::build });
+        v.push(Property { id: "C30", level: "exploration", build: c30::build });
+        v.push(Property { id: "C31", level: "exploration", build: c31::build });
+        v.push(Property { id: "C32", level: "exploration", build: c32::build });
+        v.push(Property { id: "C33", level: "exploration", build: c33::build });
+        v.push(Property { id: "C34", level: "exploration", build: c34::build });
+        v.push(Property { id: "C35", level: "exploration", build: c35::build });
+        v.push(Property { id: "C36", level: "exploration", build: c36::build });
+        v.push(Property { id: "C37", level: "exploration", build: c37::build });
+        v.push(Property { id: "C39", level: "exploration", build: c39::build });
+        v.push(Property { id: "C38", level: "exploration", build: c38::build });
+    }
+    v
 }
+
+pub fn find(id: &str) -> Option<Property> {
+    all().into_iter().find(|p| p.id == id)
+}
+
 pub fn child_main(args: &[String]) -> i32 {
     match args[0].as_str() {
+        #[cfg(feature = "full")]
         "--child-parse" => c32::child_parse(&args[1]),
+        "--child-c38" => c38::child_scalar(&args[1], &args[2]),
         _ => 2,
     }
 }
